@@ -8,6 +8,7 @@ R01.3 error labelling: success False <=> ERROR at every setSuccessState site; ev
 R01.4 the failure flags of the last pressure evaluation are consulted before success is reported
 R01.5 flag typestate: reset on entry of the evaluation that may lower them; no other writers
 R01.6 history independence: fresh solver objects per manager call; closed table of stores to long-lived objects
+R01.7 the configured tolerances / grid sizes reach the constructors of the solver objects (results are a function of model and settings)
 """
 from __future__ import annotations
 
@@ -331,10 +332,75 @@ def r01_6(chk: Check):
     ok = any(isinstance(st, ast.Assign) and n(st.targets[0]) == "self.background" and isinstance(st.value, ast.Call) and (dotted(st.value.func) or "").endswith("deepcopy")
              for st in own_nodes(fb.node))
     chk.ob("R01.6", fb.where(), "the Boltzmann solver boosts a deep copy: the background returned with the result stays in the wall frame", ok, key="deepcopy")
-    chk.floor("R01.6", 10)
+    from ..core import shared_mutable_class_state
+    shared = shared_mutable_class_state(S)
+    chk.ob("R01.6", "src/WallGo", "no class keeps mutable state at class level that its methods mutate in place (such state is shared by all instances and "
+           "survives from one solver call to the next)", not shared, "; ".join(f"{f.qual} mutates class-level `{a}` of {c}" for f, x, c, a in shared)[:300],
+           key="no-shared-class-state")
+    chk.floor("R01.6", 11)
+
+
+CONFIG_PLUMBING = {
+    # constructor: {parameter: config attribute path}
+    "EOM": {"errTol": "configEOM.errTol", "maxIterations": "configEOM.maxIterations", "pressRelErrTol": "configEOM.pressRelErrTol",
+            "forceEnergyConservation": "configEOM.conserveEnergyMomentum", "wallThicknessBounds": "configEOM.wallThicknessBounds",
+            "wallOffsetBounds": "configEOM.wallOffsetBounds"},
+    "Hydrodynamics": {"tmax": "configHydrodynamics.tmax", "tmin": "configHydrodynamics.tmin", "rtol": "configHydrodynamics.relativeTol",
+                      "atol": "configHydrodynamics.absoluteTol"},
+    "Grid3Scales": {"M": "configGrid.spatialGridSize", "N": "configGrid.momentumGridSize", "ratioPointsWall": "configGrid.ratioPointsWall",
+                    "smoothing": "configGrid.smoothing"},
+    "BoltzmannSolver": {"collisionMultiplier": "configBoltzmannSolver.collisionMultiplier"},
+}
+
+
+def r01_7(chk: Check):
+    """the configured settings reach the solver objects: the result is a function of model AND settings"""
+    S = chk.src
+    mgr = S.cls("manager:WallGoManager")
+    for ctor, mapping in CONFIG_PLUMBING.items():
+        site = None
+        for name, f_ in mgr.methods.items():
+            for c in own_nodes(f_.node):
+                if isinstance(c, ast.Call) and n(c.func) == ctor:
+                    site = (f_, c)
+        if site is None:
+            raise AnchorMissing(f"manager: construction of {ctor} not found")
+        f_, c = site
+        chk.touch(f_.name)
+        target = None
+        for m_ in S.modules.values():
+            if ctor in m_.classes:
+                target = m_.classes[ctor].methods.get("__init__")
+        params = [p for p in target.params() if p != "self"]
+        bound = {}
+        for i, a in enumerate(c.args):
+            if i < len(params):
+                bound[params[i]] = a
+        for k in c.keywords:
+            if k.arg:
+                bound[k.arg] = k.value
+        defs = {}
+        for st in own_nodes(f_.node):
+            if isinstance(st, ast.Assign) and isinstance(st.targets[0], ast.Name):
+                defs[st.targets[0].id] = st.value
+        for p, path in mapping.items():
+            a = bound.get(p)
+            srcs = ""
+            if a is not None:
+                seen = 0
+                e = a
+                while isinstance(e, ast.Name) and e.id in defs and seen < 4:
+                    e = defs[e.id]
+                    seen += 1
+                srcs = n(e)
+            ok = a is not None and f"self.config.{path}" in srcs
+            chk.ob("R01.7", f_.where(c), f"{ctor}({p}=...) receives the configured value config.{path} (not a hard-wired or default value)", ok,
+                   f"argument: {n(a) if a is not None else 'not passed (constructor default is used)'} <- {srcs}", key=f"plumbing|{ctor}.{p}")
+    chk.floor("R01.7", 15)
 
 
 def rules(chk: Check) -> None:
+    r01_7(chk)
     r01_1(chk)
     r01_2(chk)
     r01_3(chk)
